@@ -220,6 +220,7 @@ def check_class_header_arms(fx, rep, rule, impl):
     old = ("loop", cls, idx)
     keyf = "name" if cache else "obfuscated"
     n = 0
+    check_record_stream(fx, rep, rule, impl, rl)
     # ---- Class arm
     for p in rl.arm("Class"):
         n += 1
@@ -360,3 +361,41 @@ def header_falls_through(rl):
             if sub and not key_tested and any(a[k] is False for k in sub):
                 out.append(S.cstr(p["conds"]))
     return out
+
+
+def check_record_stream(fx, rep, rule, impl, rl):
+    """the record loop consumes every successfully parsed record of the mapping, in order: its iterator is
+    peekable(filter_map(mapping.iter(), Result::ok)) over the mapping parameter (no take/skip/map_while/...)"""
+    import readers as RD
+    drv = RD.driver_of_loop(rl.loop)
+    b = rl.body
+    mp = [prm["pat"]["name"] for prm in b["params"] if prm.get("pat") and prm["pat"].get("k") == "Bind" and "ProguardMapping" in (prm.get("ty") or "")]
+    good = False
+    if drv is not None and len(mp) == 1:
+        it = ("adt", "ProguardRecordIter", "ProguardRecordIter", (("slice", mk_field(("in", mp[0]), "source")),))
+        want_fm = ("call", "std::iter::Iterator::filter_map", (it, ("fnref", "std::result::Result::ok")))
+        t = drv
+        if t[0] == "call" and t[1] == "std::iter::Iterator::peekable" and len(t[2]) == 1:
+            t = t[2][0]
+        good = t[0] == "call" and t[1] == "std::iter::Iterator::filter_map" and t[2][0] == it and _is_result_ok(fx, t[2][1])
+    rep.check(rule, "%s/record-stream/%s" % (rule, impl), good, loc=F.loc(rl.loop["node"]),
+              found="the record loop iterates %s" % (S.tstr(drv)[:300] if drv else "?"),
+              expected="peekable(filter_map(<mapping>.iter(), Result::ok)): every Ok record of the whole mapping, in file order")
+
+
+def _is_result_ok(fx, t):
+    if t[0] == "fnref":
+        return t[1].startswith("std::result::Result") and t[1].endswith("::ok")
+    if t[0] == "closure":
+        sy = S.Sym(fx)
+        try:
+            r = sy.apply(t, [("bound", 0)], S.St(), {"sp": "?"})
+        except S.Undecidable:
+            return False
+        if len(r) == 1 and r[0][1][1] == ("call", "std::result::Result::ok", (("bound", 0),)):
+            return True
+        # modelled Result::ok: Some(payload) when Ok, None otherwise
+        outs = {(tuple(sorted((a, p) for a, p in st.conds)), v[1]) for st, v in r}
+        ok_atom = ("is", ("bound", 0), "Ok")
+        return outs == {(((ok_atom, True),), some(mk_payload(("bound", 0), "Ok", "0"))), (((ok_atom, False),), NONE)}
+    return False
